@@ -145,6 +145,11 @@ contract('RelayPool.attempt', module=MP, props=['C19'],
                   'self.pool_size is None or len(self.pool) <= cast(self.pool_size, Int)'],
          raises={'TransientRelayError': ['len(self.pool) >= 1'], 'PermanentRelayError': ['len(self.pool) >= 1'],
                  'OtherException': []},
+         # C19 "the result of its own envelope": the request queued is the pair (a NEW result object, THIS envelope),
+         # and what attempt() hands back is what was written to that very result object
+         call_requires={'BlockingDeque.append': ['fresh(result)', 'not result.answered']},
+         checks=['ncalls("BlockingDeque.append") == 1 and ncalls("AsyncResult.get") == 1'],
+         locals={'result': 'AsyncResult'},
          modifies=['contents(self.pool)', 'self.queue.n', 'self.queue.sema.counter', 'self.queue.sema.held', 'fresh'])
 
 contract('RelayPoolClient.poll', module=MP, props=['C19'],
